@@ -14,6 +14,7 @@ one canonical form of constructs that maintainers routinely rewrite into each ot
   S2  if (c) { ...always exits } else B  ->  if (c) { ... } ; B            (else after return / throw)
   S3  if (a) { if (b) X }  ->  if (a && b) X                                (no else on either)
   S6  for (T i = 0; i < X.size(); ++i) { .. X[i] .. } with i used only as the index of the plain member / variable X -> range-for over X
+  S9  for (auto it = X.begin(); it != X.end(); ++it) { .. *it .. it->m .. } with it used only dereferenced -> range-for over X
   S7  T i = a; while (c(i)) { body; ++i; } (no continue, i dead afterwards) -> for (T i = a; c(i); ++i) body
   S4  a void function body / a loop body that ends with `if (a && b) { X }` -> `if (!a) return / continue; if (!b) ...; X` (guard-clause form)
   S8  if (a > b) a = b; -> a = min(a, b); if (a < b) a = b; -> a = max(a, b)   (integers)
@@ -256,6 +257,9 @@ def _refs_to(n, d):
 def _is_step(e, d):
     """++i (after E4) on local d"""
     e = _strip(e)
+    if isinstance(e, dict) and e.get("k") == "OpCall" and e.get("op") == "++" and e.get("args"):
+        a = _strip(e["args"][0])   # iterator increment (prefix, or postfix as a whole statement)
+        return isinstance(a, dict) and a.get("k") == "Ref" and a.get("d") == d
     return isinstance(e, dict) and e.get("k") == "Un" and e.get("op") == "++" and isinstance(_strip(e.get("e")), dict) and _strip(e["e"]).get("k") == "Ref" and _strip(e["e"]).get("d") == d
 
 
@@ -305,6 +309,54 @@ def _pure_container(x):
     return False
 
 
+def _iterator_loop_to_range(f, var, d, c):
+    """S9: for (auto it = X.begin(); it != X.end(); ++it) { .. *it .. it->m .. } with `it` used only dereferenced and X a plain
+    member / variable -> range-for over X whose element stands for *it"""
+    ini = _strip(var.get("init"))
+    while isinstance(ini, dict) and ini.get("k") == "Construct" and len(ini.get("args", [])) == 1:
+        ini = _strip(ini["args"][0])
+    if not (isinstance(ini, dict) and ini.get("k") == "Call" and ini.get("cname") in ("begin", "cbegin") and not ini.get("args") and ini.get("obj") is not None and _pure_container(ini["obj"])):
+        return None
+    X = ini["obj"]
+    xt = _txt(X)
+    if not (isinstance(c, dict) and c.get("k") in ("Bin", "OpCall") and c.get("op") == "!="):
+        return None
+    ops = [c.get("l"), c.get("r")] if c.get("k") == "Bin" else list(c.get("args", []))
+    if len(ops) != 2:
+        return None
+    a, b = _strip(ops[0]), _strip(ops[1])
+    if isinstance(b, dict) and b.get("k") == "Ref" and b.get("d") == d:
+        a, b = b, a
+    if not (isinstance(a, dict) and a.get("k") == "Ref" and a.get("d") == d):
+        return None
+    while isinstance(b, dict) and b.get("k") == "Construct" and len(b.get("args", [])) == 1:
+        b = _strip(b["args"][0])
+    if not (isinstance(b, dict) and b.get("k") == "Call" and b.get("cname") in ("end", "cend") and not b.get("args") and b.get("obj") is not None and _txt(b["obj"]) == xt):
+        return None
+    uses = _refs_to(f.get("b"), d)
+    hits = []
+
+    def find(n):
+        if n.get("k") == "Un" and n.get("op") == "*" and isinstance(_strip(n.get("e")), dict) and _strip(n["e"]).get("k") == "Ref" and _strip(n["e"]).get("d") == d:
+            hits.append(("deref", n))
+        elif n.get("k") == "OpCall" and n.get("op") == "*" and len(n.get("args", [])) == 1 and isinstance(_strip(n["args"][0]), dict) and _strip(n["args"][0]).get("k") == "Ref" and _strip(n["args"][0]).get("d") == d:
+            hits.append(("deref", n))
+        elif n.get("k") == "Member" and isinstance(_strip(n.get("b")), dict) and _strip(n["b"]).get("k") == "Ref" and _strip(n["b"]).get("d") == d:
+            hits.append(("member", n))   # E8 form of it->m / (*it).m
+    _walk(f.get("b"), find)
+    if not uses or len(hits) != len(uses):
+        return None
+    for kind, h in hits:
+        ref = {"k": "Ref", "d": d, "dk": "local", "n": var.get("n"), "t": h.get("t") if kind == "deref" else None, "loc": h.get("loc"), "sz": h.get("sz"), "synth": True}
+        if kind == "deref":
+            h.clear()
+            h.update(ref)
+        else:
+            h["b"] = ref
+    return {"k": "RangeFor", "loc": f.get("loc"), "range": X, "b": f.get("b"), "was": "IteratorFor",
+            "var": {"d": d, "n": var.get("n"), "t": None, "loc": var.get("loc"), "ref": True, "const": False, "synth": True}}
+
+
 def _index_loop_to_range(f):
     """S6: for (T i = 0; i < X.size(); ++i) { ... X[i] ... } where i occurs in the body only as the index of X and X is a plain
     member / variable  ->  range-for over X whose element stands for X[i]"""
@@ -313,6 +365,10 @@ def _index_loop_to_range(f):
         return f
     var = init["vars"][0]
     d = var.get("d")
+    if d is not None and _is_step(inc, d):
+        r = _iterator_loop_to_range(f, var, d, c)
+        if r is not None:
+            return r
     if d is None or _lit(var.get("init")) != 0 or not _is_step(inc, d):
         return f
     if c.get("k") != "Bin" or c.get("op") not in ("<", ">", "!="):
